@@ -155,3 +155,16 @@ Qed.
 
 Theorem C10_source_min_max : SV.Extracted.RsInline.rs_II_min_max_for_bits SV.Rs.Prelude.InlineInt_BITS = (imin, imax).
 Proof. exact SV.Rs.Proofs.rs_min_max_for_bits_eq. Qed.
+
+(* + - * unary - & | ^ ~ and the ordering, as written in int_or_big.rs / bigint.rs today *)
+Theorem C10_source_arith_exact : forall a b, wf a -> wf b ->
+  (wf (SV.Extracted.RsInt.rs_add_sir a b) /\ den (SV.Extracted.RsInt.rs_add_sir a b) = den a + den b) /\
+  (wf (SV.Extracted.RsInt.rs_sub_sir a b) /\ den (SV.Extracted.RsInt.rs_sub_sir a b) = den a - den b) /\
+  (wf (SV.Extracted.RsInt.rs_mul_sir a b) /\ den (SV.Extracted.RsInt.rs_mul_sir a b) = den a * den b) /\
+  (wf (SV.Extracted.RsInt.rs_neg_sir a) /\ den (SV.Extracted.RsInt.rs_neg_sir a) = - den a) /\
+  (wf (SV.Extracted.RsInt.rs_bitand a b) /\ den (SV.Extracted.RsInt.rs_bitand a b) = Z.land (den a) (den b)) /\
+  (wf (SV.Extracted.RsInt.rs_bitor a b) /\ den (SV.Extracted.RsInt.rs_bitor a b) = Z.lor (den a) (den b)) /\
+  (wf (SV.Extracted.RsInt.rs_bitxor a b) /\ den (SV.Extracted.RsInt.rs_bitxor a b) = Z.lxor (den a) (den b)) /\
+  (wf (SV.Extracted.RsInt.rs_bitnot a) /\ den (SV.Extracted.RsInt.rs_bitnot a) = Z.lnot (den a)) /\
+  SV.Extracted.RsInt.rs_cmp_sir a b = Z.compare (den a) (den b).
+Proof. exact SV.Rs.Proofs.source_arith_exact. Qed.
